@@ -35,6 +35,7 @@ type params struct {
 	Race   bool // alphabet includes "drop+publish": the connection is lost and a message published at the same moment
 	NoDrop bool // the subscriber stays connected (no drop / fault events): with a small queue nothing may be lost to capacity
 	Real   bool // the broker writes / reads through the real transport.BaseConn (buffered writer, flush timer) over the pipe
+	Stray  bool // alphabet includes "stray-puback": the subscriber acknowledges again what it has already acknowledged (or an id never used)
 }
 
 func init() {
@@ -82,6 +83,7 @@ type st struct {
 	sawNew       bool
 	evname       string
 	discarded    map[string]bool // tags published before the last clean connect: must never be delivered afterwards
+	lastAcked    packet.ID       // id of the latest final acknowledgement (stray-puback repeats it)
 }
 
 func (s *st) on(prop string) bool { return s.pr.Prop == prop }
@@ -409,6 +411,9 @@ func history(x *explore.X, pr params) {
 			if pr.Race {
 				evs = append(evs, "drop+publish(q1)")
 			}
+			if pr.Stray {
+				evs = append(evs, "stray-puback")
+			}
 			if pr.Faults {
 				evs = append(evs, "fail-next-write-before", "fail-next-write-after", "fail-next-read")
 			}
@@ -438,9 +443,11 @@ func history(x *explore.X, pr params) {
 			switch {
 			case f.qos == 1:
 				s.sub.Send(env.Puback(f.id))
+				s.lastAcked = f.id
 				s.release(f)
 			case f.qos == 2 && f.gotRel:
 				s.sub.Send(env.Pubcomp(f.id))
+				s.lastAcked = f.id
 				s.release(f)
 			default:
 				s.sub.Send(env.Pubrec(f.id))
@@ -448,6 +455,15 @@ func history(x *explore.X, pr params) {
 				f.recConn = true
 			}
 			x.Note("ack")
+		case ev == "stray-puback":
+			// a repeated (or never solicited) PUBACK names no recorded message: everything unacknowledged stays recorded and is
+			// retransmitted after a reconnect, however many window slots the broker believes to be free
+			id := s.lastAcked
+			if id == 0 || s.find(id) != nil {
+				id = 0xFFF0
+			}
+			s.sub.Send(env.Puback(id))
+			x.Note("stray-ack")
 		case ev == "drop":
 			s.sub.Drop()
 			x.Note("fault")
@@ -568,13 +584,13 @@ func (s *st) fingerprint() string {
 func part(r *report.Report, name string, p params, bound int) {
 	js, _ := json.Marshal(p)
 	st := explore.Explore(explore.Config{Harness: "subhist", Params: string(js), Bound: bound, Workers: report.Workers(), Deadline: r.Deadline()})
-	r.AddExploration(name, "history", fmt.Sprintf("all histories of depth %d (window %d, publish qos %v, clean connects %v, write/read faults %v, out-of-order acks %v, QoS 0 bystander %v, over transport.BaseConn %v, queue capacity %d (0 = 16), subscriber stays connected %v), delay bound %d, each followed by a reconnect-and-acknowledge-everything epilogue", p.Depth, p.Window, p.QOS, p.Clean, p.Faults, p.Ooo, p.Bystander, p.Real, p.Queue, p.NoDrop, bound), st,
+	r.AddExploration(name, "history", fmt.Sprintf("all histories of depth %d (window %d, publish qos %v, clean connects %v, write/read faults %v, out-of-order acks %v, QoS 0 bystander %v, over transport.BaseConn %v, queue capacity %d (0 = 16), subscriber stays connected %v, repeated/unsolicited PUBACKs %v), delay bound %d, each followed by a reconnect-and-acknowledge-everything epilogue", p.Depth, p.Window, p.QOS, p.Clean, p.Faults, p.Ooo, p.Bystander, p.Real, p.Queue, p.NoDrop, p.Stray, bound), st,
 		"one execution = one history of publisher/subscriber/fault events; instant clauses at every broker write, store/token clauses at every quiescence, loss/progress clause after the epilogue; non-trivial = fault, acknowledgement and retransmission events (counted)",
-		"fault", "ack", "retransmission")
+		"fault", "ack", "retransmission", "stray-ack")
 }
 
 func assume(r *report.Report) {
-	r.Assume("one persistent subscriber (QoS 2 subscription) and one helper publisher over codec pipes; the subscriber is protocol-conformant and controls when it acknowledges",
+	r.Assume("one persistent subscriber (QoS 2 subscription) and one helper publisher over codec pipes; the subscriber is protocol-conformant and controls when it acknowledges (the stray-pubacks parts add one departure: a PUBACK repeating the latest acknowledgement or naming an id never used)",
 		"faults: peer drop, broker write failing before/after the transfer, broker read failing; queue capacity (16) exceeds the history depth, so capacity-drops never occur",
 		"history mode at delay bound 0 plus a pass with one scheduling deviation per history on shorter histories",
 		"acknowledgements sent on an open connection are processed by the broker before the next event (quiescence between events)")
@@ -589,7 +605,10 @@ func runC08(r *report.Report) {
 		part(r, "w1-bystander", params{Prop: "C08", Depth: 5, Window: 1, QOS: []int{1, 2}, Bystander: true}, 0)
 		part(r, "w2-loss-racing-publish", params{Prop: "C08", Depth: 2, Window: 2, QOS: []int{1}, Race: true}, 2)
 		part(r, "w2-drops-over-baseconn", params{Prop: "C08", Depth: 6, Window: 2, QOS: []int{1, 2}, Clean: true, Ooo: true, Real: true}, 0)
+		part(r, "w1-stray-pubacks", params{Prop: "C08", Depth: 6, Window: 1, QOS: []int{1, 2}, Stray: true}, 0)
 	} else {
+		part(r, "w1-stray-pubacks", params{Prop: "C08", Depth: 8, Window: 1, QOS: []int{1, 2}, Stray: true, Faults: true}, 0)
+		part(r, "w2-stray-pubacks", params{Prop: "C08", Depth: 8, Window: 2, QOS: []int{1, 2}, Stray: true, Ooo: true}, 0)
 		part(r, "w2-drops-over-baseconn", params{Prop: "C08", Depth: 7, Window: 2, QOS: []int{1, 2}, Clean: true, Ooo: true, Real: true}, 0)
 		part(r, "w2-loss-racing-publish", params{Prop: "C08", Depth: 3, Window: 2, QOS: []int{1, 2}, Race: true}, 2)
 		part(r, "w1-drops-over-baseconn-reordered", params{Prop: "C08", Depth: 4, Window: 1, QOS: []int{1, 2}, Real: true}, 1)
